@@ -14,7 +14,8 @@ Space (each part is enumerated completely; quick / thorough):
   C every legal argument shape required* optional* [multi | required-multi] with <= 2 / 3 single-valued arguments, all-string or
     exactly one typed argument, x {no, one, two command names (alias, omitted suffix)} x {no option, flag + optional-value
     option}, 2 / 3 values per argument (incl. dash-leading ones that force a `--` tail, words equal to a command name);
-  D one format (2 names, 2 options, 2 / 3 arguments) split between base format and format in all 36 / 48 ways;
+  D one format (2 names, 2 options, 2 / 3 arguments) split between base format and format in all 36 / 48 ways, each also with an
+    empty level in between (a three-level chain);
   E odd but legal names (case-sensitive shorts, `cmd11` argument, names equal to values) + the VERIF_SEED value;
   T all 64 ordered triples of the short-named structural kinds (thorough: all 512 triples of the 8 kinds, and the 64 in a
     context with a command name and a multi-valued argument);
@@ -132,6 +133,9 @@ def parts(tier, seed=0):
             for na in range(len(aks) + 1):
                 d.append((G.mk_spec(G.NAMES2, okinds, aks, [nb, list(mask), na]),
                           dict(dom_n=1, arg_dom_n=1, multi_len=1, arg_multi_len=1)))
+                # ... and the same with a level that defines nothing between the base and the derived format
+                d.append((G.mk_spec(G.NAMES2, okinds, aks, [nb, list(mask), na, 1]),
+                          dict(dom_n=1, arg_dom_n=1, multi_len=1, arg_multi_len=1)))
     P.append(("D:base-split", d))
 
     # E: unusual but legal names (case-sensitive shorts, hyphen/digit long names, an argument called like the parser's
@@ -233,14 +237,18 @@ def judge(fmt, spec, asg, tokens, exp):
     """-> list of violations (at most one per signature) for this line"""
     from clikit.api.args.exceptions import CannotParseArgsException, NoSuchOptionException
 
+    from clikit.args.argv_args import ArgvArgs
+    from clikit.args.default_args_parser import DefaultArgsParser
+
     vs = []
     seen = set()
     strict_bad = set()
+    raw = ArgvArgs(["prog"] + list(tokens))  # ONE command-line object, parsed in both modes (each time by a fresh parser)
     for lenient in (False, True):
         mode = "lenient" if lenient else "strict"
         case = {"spec": spec, "asg": asg, "tokens": tokens}
         try:
-            args = G.parse(fmt, tokens, lenient)
+            args = DefaultArgsParser().parse(raw, fmt, lenient)
         except Exception as e:  # noqa
             cls = "rejected" if isinstance(e, (CannotParseArgsException, NoSuchOptionException, ValueError)) else "crash"
             sig = "%s:%s" % (cls, report.exc_site(e))
